@@ -531,6 +531,15 @@ def gen_cases(seed, tier, shard, nshards):
             p = rand_partition(rnd, ml, 64)
             add('hmac', 'M %d %s %s %s' % (al, core.hx(k), core.hx(m), pstr(p)), exp,
                 sig('M', kl, ml, al, len(p)))
+    # PBKDF2-HMAC-SHA256 (its own call site of the compression function):
+    # password lengths on both sides of the 64-byte block, several output blocks
+    for _ in range(3 * scale if tier != 'quick' else 3):
+        pl = rnd.choice([0, 8, 63, 64, 65, 66, 100, 128, 200])
+        pw, salt = rbytes(rnd, pl), rbytes(rnd, rnd.randrange(0, 80))
+        c = rnd.choice([1, 2, 3, 7])
+        dk = rnd.choice([1, 20, 32, 33, 64, 65, 100])
+        add('hmac', 'P %d %s %s %d %d' % (rnd.randrange(16), core.hx(pw), core.hx(salt), c, dk),
+            hashlib.pbkdf2_hmac('sha256', pw, salt, c, dk).hex(), sig('P', pl, len(salt), c, dk))
     # AES blocks: alignments 0..15, both key sizes, in place or not
     for al in range(16):
         if al % nshards != shard and tier == 'quick':
